@@ -29,7 +29,7 @@ Record dvariants := {
 }.
 Definition current_dvariants :=
   {| dv_astype_num_keeps_w := false; dv_ps_astype_keeps_w := false; dv_ps_getitem_keeps_w := false;
-     dv_byaxis_nonnum_ok := false |}.
+     dv_byaxis_nonnum_ok := true |}.
 Definition repaired_dvariants :=
   {| dv_astype_num_keeps_w := true; dv_ps_astype_keeps_w := true; dv_ps_getitem_keeps_w := true;
      dv_byaxis_nonnum_ok := true |}.
